@@ -44,6 +44,10 @@ ATLAS_Q = [
                       ["AsROOTTTree", ["file.root", "treeme", ["jpt", "jeta"]]]]),
     ("a_const_math_then_jets", [["Select", f"lambda e: (sqrt(2.0), sin(1.0), {JETS}.Count())"]]),
     ("a_jet_sqrt", [["SelectMany", f"lambda e: {JETS}"], ["Select", "lambda j: sqrt(j.pt())"]]),
+    # column names where one is another plus digits (generated identifiers are <name><counter>), and many default-named columns
+    ("a_cols_pt", [["Select", "lambda e: {'pt': e.Jets('AntiKt4EMTopoJets').Count()}"]]),
+    ("a_cols_pt1_pt", [["Select", "lambda e: {'pt1': e.Jets('AntiKt4EMTopoJets').Count(), 'pt': e.Jets('AntiKt4EMTopoJets').Where(lambda x: x.pt() > 1.0).Count()}"]]),
+    ("a_cols12", [["Select", "lambda e: (e.Jets('AntiKt4EMTopoJets').Where(lambda x: x.pt() > 0.0).Count(), e.Jets('AntiKt4EMTopoJets').Where(lambda x: x.pt() > 1.0).Count(), e.Jets('AntiKt4EMTopoJets').Where(lambda x: x.pt() > 2.0).Count(), e.Jets('AntiKt4EMTopoJets').Where(lambda x: x.pt() > 3.0).Count(), e.Jets('AntiKt4EMTopoJets').Where(lambda x: x.pt() > 4.0).Count(), e.Jets('AntiKt4EMTopoJets').Where(lambda x: x.pt() > 5.0).Count(), e.Jets('AntiKt4EMTopoJets').Where(lambda x: x.pt() > 6.0).Count(), e.Jets('AntiKt4EMTopoJets').Where(lambda x: x.pt() > 7.0).Count(), e.Jets('AntiKt4EMTopoJets').Where(lambda x: x.pt() > 8.0).Count(), e.Jets('AntiKt4EMTopoJets').Where(lambda x: x.pt() > 9.0).Count(), e.Jets('AntiKt4EMTopoJets').Where(lambda x: x.pt() > 10.0).Count(), e.Jets('AntiKt4EMTopoJets').Where(lambda x: x.pt() > 11.0).Count())"]]),
     # ones that must be refused
     ("a_bad_slice", [["Select", f"lambda e: {JETS}.Select(lambda j: j.pt())[0:2]"]]),
     ("a_bad_chain_cmp", [["SelectMany", f"lambda e: {JETS}"], ["Where", "lambda j: 1.0 < j.pt() < 3.0"], ["Select", "lambda j: j.pt()"]]),
@@ -80,6 +84,10 @@ CMS_AOD_Q = [
                               ["Select", "lambda m: m.innerTrack().hitPattern().numberOfValidHits()"]]),
     ("c_const_math_then_mu", [["Select", 'lambda e: (sqrt(2.0), sin(1.0), e.Muons("muons").Count())']]),
     ("c_mu_sqrt", [["SelectMany", 'lambda e: e.Muons("muons")'], ["Select", "lambda m: sqrt(m.pt()) + sin(m.phi())"]]),
+    # column names where one is another plus digits (generated identifiers are <name><counter>), and many default-named columns
+    ("c_cols_pt", [["Select", "lambda e: {'pt': e.Muons('muons').Count()}"]]),
+    ("c_cols_pt1_pt", [["Select", "lambda e: {'pt1': e.Muons('muons').Count(), 'pt': e.Muons('muons').Where(lambda x: x.pt() > 1.0).Count()}"]]),
+    ("c_cols12", [["Select", "lambda e: (e.Muons('muons').Where(lambda x: x.pt() > 0.0).Count(), e.Muons('muons').Where(lambda x: x.pt() > 1.0).Count(), e.Muons('muons').Where(lambda x: x.pt() > 2.0).Count(), e.Muons('muons').Where(lambda x: x.pt() > 3.0).Count(), e.Muons('muons').Where(lambda x: x.pt() > 4.0).Count(), e.Muons('muons').Where(lambda x: x.pt() > 5.0).Count(), e.Muons('muons').Where(lambda x: x.pt() > 6.0).Count(), e.Muons('muons').Where(lambda x: x.pt() > 7.0).Count(), e.Muons('muons').Where(lambda x: x.pt() > 8.0).Count(), e.Muons('muons').Where(lambda x: x.pt() > 9.0).Count(), e.Muons('muons').Where(lambda x: x.pt() > 10.0).Count(), e.Muons('muons').Where(lambda x: x.pt() > 11.0).Count())"]]),
     ("c_bad_slice", [["Select", 'lambda e: e.Muons("muons").Select(lambda m: m.pt())[0:2]']]),
     ("c_bad_raw", [["Select", 'lambda e: e.Muons("muons")']]),
     ("c_bad_method_on_double", [["SelectMany", 'lambda e: e.Muons("muons")'], ["Select", "lambda m: m.pt().eta()"]]),
@@ -103,6 +111,10 @@ CMS_MINI_Q = [
                              ["Select", "lambda m: m.bestTrack().hitPattern().numberOfValidHits()"]]),
     ("m_const_math_then_mu", [["Select", 'lambda e: (sqrt(2.0), sin(1.0), e.Muons("slimmedMuons").Count())']]),
     ("m_mu_sqrt", [["SelectMany", 'lambda e: e.Muons("slimmedMuons")'], ["Select", "lambda m: sqrt(m.pt()) + sin(m.phi())"]]),
+    # column names where one is another plus digits (generated identifiers are <name><counter>), and many default-named columns
+    ("m_cols_pt", [["Select", "lambda e: {'pt': e.Muons('slimmedMuons').Count()}"]]),
+    ("m_cols_pt1_pt", [["Select", "lambda e: {'pt1': e.Muons('slimmedMuons').Count(), 'pt': e.Muons('slimmedMuons').Where(lambda x: x.pt() > 1.0).Count()}"]]),
+    ("m_cols12", [["Select", "lambda e: (e.Muons('slimmedMuons').Where(lambda x: x.pt() > 0.0).Count(), e.Muons('slimmedMuons').Where(lambda x: x.pt() > 1.0).Count(), e.Muons('slimmedMuons').Where(lambda x: x.pt() > 2.0).Count(), e.Muons('slimmedMuons').Where(lambda x: x.pt() > 3.0).Count(), e.Muons('slimmedMuons').Where(lambda x: x.pt() > 4.0).Count(), e.Muons('slimmedMuons').Where(lambda x: x.pt() > 5.0).Count(), e.Muons('slimmedMuons').Where(lambda x: x.pt() > 6.0).Count(), e.Muons('slimmedMuons').Where(lambda x: x.pt() > 7.0).Count(), e.Muons('slimmedMuons').Where(lambda x: x.pt() > 8.0).Count(), e.Muons('slimmedMuons').Where(lambda x: x.pt() > 9.0).Count(), e.Muons('slimmedMuons').Where(lambda x: x.pt() > 10.0).Count(), e.Muons('slimmedMuons').Where(lambda x: x.pt() > 11.0).Count())"]]),
     ("m_bad_slice", [["Select", 'lambda e: e.Muons("slimmedMuons").Select(lambda m: m.pt())[0:2]']]),
     ("m_bad_raw", [["Select", 'lambda e: e.Muons("slimmedMuons")']]),
 ]
